@@ -66,6 +66,9 @@ def plans(nfiles):
         ("cfr-ENOSPC-every", [("fail", E["ENOSPC"], 0, "copy_file_range", 0, "/dst/")], True),
         ("create-ENOSPC-first", [("fail", E["ENOSPC"], 0, "openat", 1, "/dst/d000/")], True),
         ("create-EMFILE-late", [("fail", E["EMFILE"], 0, "openat", late, "/dst/d")], True),
+        # a resource error that does NOT go away by waiting (the limit is held by others): every open under one directory
+        ("create-EMFILE-persistent", [("fail", E["EMFILE"], 0, "openat", 0, "/dst/d001/")], True),
+        ("src-open-ENFILE-persistent", [("fail", 23, 0, "openat", 0, "/src/d002/f")], True),
         ("ftruncate-EIO", [("fail", E["EIO"], 0, "ftruncate", 3, "*")], True),
         ("getdents-EIO-2nd", [("fail", E["EIO"], 0, "getdents64", 2, "/src")], True),
         ("mkdir-EACCES-2nd", [("fail", E["EACCES"], 0, "mkdir", 2, "*")], True),
